@@ -136,8 +136,8 @@ def check_C20(tier):
     vh = build_harness()
     bins = build_repo_bins(["varlink-cli"])
     thorough = tier == "thorough"
-    consts = {"BugStopAtFirst": False, "BugExitZeroOnError": False, "BugSplitFirstSlash": False, "MaxK": 6 if thorough else 3, "Emit": True}
-    cfg = write_cfg(os.path.join(res.wd, "MC_Cli.cfg"), constants=consts, invariants=["InvExit", "InvOrder", "InvAll", "FormsOk", "EmitCase", "EmitForms"])
+    consts = {"BugStopAtFirst": False, "BugExitZeroOnError": False, "BugSplitFirstSlash": False, "BugBufferUntilEnd": False, "MaxK": 6 if thorough else 3, "Emit": True}
+    cfg = write_cfg(os.path.join(res.wd, "MC_Cli.cfg"), constants=consts, invariants=["InvExit", "InvOrder", "InvAll", "InvShown", "FormsOk", "EmitCase", "EmitForms"])
     r = run_tlc("MC_Cli", cfg, res.wd, workers=2, tag="cli")
     forms = [c for c in r.replay if "forms" in c]
     r.replay = [c for c in r.replay if "script" in c]
